@@ -6,7 +6,7 @@ PROP = "C14"
 LEVEL = "exploration"
 SHARDS = {"quick": 8, "thorough": 16}
 TIMEOUT = {"quick": 900, "thorough": 7200}
-REQUIRED = {"public_data": 600, "no_private": 100, "leaf_scan": 100, "hardened_refused": 100}
+REQUIRED = {"public_data": 600, "no_private": 100, "leaf_scan": 100, "hardened_refused": 100, "listing": 100}
 ANCHORS = ['base_wallet:BaseWallet.from_extended_key', 'base_wallet:BaseWallet.by_path', 'base_wallet:BaseWallet.node_extended_keys', 'base_wallet:BaseWallet.node_extended_private_key', 'paper_wallet:PaperWallet.group', 'base_wallet:BaseWallet.watch_only']
 RULE = ("full wallet W from a random seed x both networks; export node E at a random path of depth 0..6 (hardened steps "
         "allowed above E); ALL six public version prefixes over the run; watch-only wallet V = from_extended_key(E.xpub(v)); "
@@ -163,6 +163,44 @@ def judge_triple(ctx, case):
                     ok, obs = True, e
                 ctx.judge("hardened_refused", ok, dict(case, sub=sub, index=hi, via=via), "raise", obs, cls="hard|%s|%s" % (via, cls_base),
                           mech="C14.hardened_derived")
+    # bulk listing AFTER single look-ups on the same watch-only nodes: count, order and content must equal the full wallet's
+    for sub in case["subpaths"][:3]:
+        if len(sub) > 4:
+            continue
+        try:
+            vpar = V.by_path(rpath.fmt(sub, "M"))
+            wpar = wE.derive_path(index_list=list(sub))
+            looked = [ctx.rnd.randrange(0, 12) for _ in range(ctx.rnd.randrange(1, 4))]
+            for i in looked:
+                vpar.ckd(index=i)                      # single look-ups first (some repeated)
+            if ctx.rnd.random() < 0.5:
+                g = V.address_generator(vpar)
+                next(g)
+                g.send(ctx.rnd.randrange(1, 5))
+            s0 = ctx.rnd.choice([0, 0, 2, 5])
+            e0 = s0 + ctx.rnd.randrange(3, 12)
+            vl = vpar.generate_children(interval=(s0, e0))
+            wl = wpar.generate_children(interval=(s0, e0))
+            refpar = rb32.derive(E.neuter(), sub)
+            lb = []
+            if len(vl) != e0 - s0 or len(wl) != e0 - s0:
+                lb.append(("count", e0 - s0, (len(vl), len(wl))))
+            for j, vn in enumerate(vl[:e0 - s0]):
+                rn = rb32.ckd_pub(refpar, s0 + j)
+                b = bridge.compare_node(vn, rn, tn, False)
+                if b:
+                    lb.append(("entry%d.%s" % (j, b[0][0]), b[0][1], b[0][2]))
+                    break
+                if V.p2wpkh_address(vn) != raddr.p2wpkh(rn.sec(), tn):
+                    lb.append(("entry%d.address" % j, raddr.p2wpkh(rn.sec(), tn), V.p2wpkh_address(vn)))
+                    break
+            vl2 = vpar.generate_children(interval=(s0, e0))          # asking again gives the same listing
+            if [bytes(x.key) for x in vl2] != [bytes(x.key) for x in vl]:
+                lb.append(("repeat_listing_differs", len(vl), len(vl2)))
+            ctx.judge("listing", not lb, dict(case, sub=sub, interval=[s0, e0], looked_up_first=looked), None, lb[:3],
+                      cls="listing|%s" % cls_base, mech="C14.listing." + (lb[0][0].split(".")[0].rstrip("0123456789") if lb else ""))
+        except Exception as e:  # noqa
+            ctx.judge("listing", False, dict(case, sub=sub), "listing", e, cls="listing|raised", mech="C14.listing.raised")
     # generate() on a watch-only wallet needs hardened steps: must raise, never emit private data
     try:
         g = V.generate(account=0, interval=(0, 1))
@@ -214,5 +252,5 @@ def run(ctx):
 
 
 def replay(ctx, monitor, case):
-    case.pop("sub", None), case.pop("index", None), case.pop("via", None)
+    case.pop("sub", None), case.pop("index", None), case.pop("via", None), case.pop("interval", None), case.pop("looked_up_first", None)
     judge_triple(ctx, case)
